@@ -110,6 +110,12 @@ CLAIMED = {
             'Generated-input search; the expected option and the expected resolved node set come from a mapping model '
             'that shares no code with adsg_core.',
             'Chained SupDSG -> SupDSG resolution is not generated.'),
+    'C08': ('property-based testing of derive/decode histories over a pool of live graph objects (generated operation '
+            'sequences); oracle = snapshot re-observation of every pool member after every operation',
+            'History search: the operation sequence is one generated value; any observable change of an existing graph '
+            'object is a violation.',
+            'Observation uses only public queries (nodes, edges, feasible, final, next choices, options, connection sets, '
+            'stored values).'),
 }
 
 NOT_YET = 'check not built yet in this session (see DESIGN.md 6 for the plan); will be claimed once it is registered'
